@@ -139,8 +139,9 @@ class Scheduler:
             if step in self._pct_points:
                 self._low -= 1
                 cur.priority = self._low
-            best = max(self._runnable(), key=lambda c: (c.priority, -c.idx))
-            return best if best is not cur else None
+                best = max(self._runnable(), key=lambda c: (c.priority, -c.idx))
+                return best if best is not cur else None
+            return None
         raise HarnessError(f"unknown schedule mode {self.mode}")
 
     def _pick_after_finish(self) -> Client | None:
